@@ -15,6 +15,14 @@ CONSTANTS
   SnapShares = @SNAPSHARES@
   MShape = "@MSHAPE@"
   PShape = "@PSHAPE@"
+  Sampled = @SAMPLED@
+  ChildGuard = "@CHILDGUARD@"
+  Stoppers <- MCStoppers
+  Unregs <- MCUnregs
+  WaitFor <- MCWaitFor
+  PreCheck = @PRECHECK@
+  ReentReg = @REENTREG@
+  UnregShape = "@UNREGSHAPE@"
   ExecTracer = @EXECTRACER@
   Shape = "@SHAPE@"
   AllowKnown = @ALLOWKNOWN@
